@@ -601,3 +601,57 @@ HARNESSES.append(dual_harness(
      "skactiveml.base:ClassFrequencyEstimator.predict_proba", "skactiveml.base:SkactivemlClassifier.predict",
      "skactiveml.utils._aggregation:compute_vote_vectors"],
     required_witnesses=("some_class_unobserved", "no_labels"), timeout_ms=30000))
+
+
+# ---------------------------------------------------------------- AnnotatorEnsembleClassifier (stub members)
+def sc_annot_ensemble(d, n, A, K, voting):
+    """one stub member per annotator (hard voting: their argmax predictions; soft voting: their probabilities): the
+    ensemble's probabilities are a distribution over classes_ for every label matrix - also when some or all annotators
+    have not provided a single label"""
+    from harness import models
+    from skactiveml.classifier.multiannotator import AnnotatorEnsembleClassifier
+    idx = [[d.choose(f"label{i}_{a}", [-1] + list(range(K))) for a in range(A)] for i in range(n)]
+    X = d.arr([[d.fl(f"x{i}", lo=-4.0, hi=4.0)] for i in range(n)], shape=(n, 1))
+    Xq = d.arr([[d.fl("q0", lo=-4.0, hi=4.0)]], shape=(1, 1))
+    Y = d.arr([[NAN if k < 0 else float(k) for k in row] for row in idx], shape=(n, A))
+    seed = d.integer("seed", 0, 2 ** 31 - 2)
+    if d.sym:
+        members = [(f"m{a}", models.StubClassifier(n_classes=K, gen=30 + a)) for a in range(A)]
+    else:
+        from skactiveml.classifier import ParzenWindowClassifier
+        members = [(f"m{a}", ParzenWindowClassifier(random_state=int(seed) + a)) for a in range(A)]
+    clf = AnnotatorEnsembleClassifier(estimators=members, classes=[float(k) for k in range(K)], voting=voting, random_state=seed)
+    try:
+        clf.fit(X, Y)
+        P = clf.predict_proba(Xq)
+        pred = clf.predict(Xq)
+    except (core.Unencodable, core.PathAbort):
+        raise
+    except Exception as e:
+        d.prove(False, "ensemble:fit_predict_succeed", info=dict(error=repr(e)[:160]))
+        return
+    d.prove(tuple(np.shape(P)) == (1, K), "ensemble:proba_shape", info=dict(shape=list(np.shape(P))))
+    if tuple(np.shape(P)) != (1, K):
+        return
+    tot = 0.0
+    for v in d.flat(P):
+        if d.sym:
+            d.prove(core.b_and(core.b_not(core.boolexpr(core.s_isnan(v))), core.boolexpr(core.s_le(0, v))), "ensemble:proba_non_negative_number")
+        else:
+            d.prove(bool(np.isfinite(v) and v >= 0), "ensemble:proba_non_negative_number")
+        tot = tot + v
+    d.prove(d.eq(tot, 1.0, 1e-9), "ensemble:rows_sum_to_one")
+    for v in d.flat(pred):
+        d.prove(any(float(v) == float(k) for k in range(K)) if not core.is_sym(v) else False, "ensemble:predict_returns_member_of_classes")
+    nolab = [a for a in range(A) if all(idx[i][a] < 0 for i in range(n))]
+    d.witness(0 < len(nolab) < A, "one_silent_annotator")
+    d.witness(len(nolab) == A, "no_labels")
+
+
+HARNESSES.append(dual_harness(
+    "annotator_ensemble", sc_annot_ensemble,
+    lambda tier: [dict(n=2, A=2, K=K, voting=v) for v in ("hard", "soft") for K in ((2,) if tier == "quick" else (2, 3))],
+    ["skactiveml.classifier.multiannotator._annotator_ensemble_classifier:AnnotatorEnsembleClassifier.fit",
+     "skactiveml.classifier.multiannotator._annotator_ensemble_classifier:AnnotatorEnsembleClassifier.predict_proba",
+     "skactiveml.base:SkactivemlClassifier.predict", "skactiveml.utils._aggregation:compute_vote_vectors"],
+    required_witnesses=("one_silent_annotator", "no_labels"), product_abstraction=False, timeout_ms=30000))
